@@ -27,7 +27,7 @@ fn small_dev() -> KDev {
 }
 
 #[kani::proof]
-#[kani::unwind(8)]
+#[kani::unwind(18)]
 pub fn scpi_stb_contract() {
     let d = small_dev();
     kani::cover!(dev_stb(&d, false) == 0xEC);
@@ -75,7 +75,7 @@ impl IEEE4882 for Plain {
     }
 }
 #[kani::proof]
-#[kani::unwind(8)]
+#[kani::unwind(18)]
 pub fn ieee4882_default_stb() {
     let p = Plain { esr: kani::any(), ese: kani::any(), sre: kani::any() };
     assert!(p.stb() == spec_stb(false, false, false, false, p.esr, p.ese, p.sre), "C16/IEEE4882::stb/default-composes-ESB-then-MSS");
@@ -96,7 +96,7 @@ macro_rules! event {
 }
 
 #[kani::proof]
-#[kani::unwind(12)]
+#[kani::unwind(18)]
 #[kani::stub(<scpi::parser::tokenizer::Tokenizer as core::iter::Iterator>::next, stub_next)]
 pub fn stb_query() {
     set_script(&[]);
@@ -121,7 +121,7 @@ pub fn stb_query() {
 }
 
 #[kani::proof]
-#[kani::unwind(10)]
+#[kani::unwind(18)]
 #[kani::stub(<scpi::parser::tokenizer::Tokenizer as core::iter::Iterator>::next, stub_next)]
 pub fn ese_sre_write() {
     let d0 = small_dev();
@@ -162,7 +162,7 @@ pub fn ese_sre_write() {
 }
 
 #[kani::proof]
-#[kani::unwind(12)]
+#[kani::unwind(18)]
 #[kani::stub(<scpi::parser::tokenizer::Tokenizer as core::iter::Iterator>::next, stub_next)]
 pub fn ese_sre_esr_read() {
     set_script(&[]);
@@ -194,7 +194,7 @@ pub fn ese_sre_esr_read() {
 }
 
 #[kani::proof]
-#[kani::unwind(12)]
+#[kani::unwind(18)]
 #[kani::stub(<scpi::parser::tokenizer::Tokenizer as core::iter::Iterator>::next, stub_next)]
 pub fn cls_event() {
     set_script(&[]);
@@ -216,7 +216,7 @@ pub fn cls_event() {
 }
 
 #[kani::proof]
-#[kani::unwind(12)]
+#[kani::unwind(18)]
 #[kani::stub(<scpi::parser::tokenizer::Tokenizer as core::iter::Iterator>::next, stub_next)]
 pub fn opc_tst_rst_wai() {
     set_script(&[]);
@@ -267,7 +267,7 @@ pub fn opc_tst_rst_wai() {
 
 /// Query-only and event-only commands reject the other form without touching the device.
 #[kani::proof]
-#[kani::unwind(12)]
+#[kani::unwind(18)]
 #[kani::stub(<scpi::parser::tokenizer::Tokenizer as core::iter::Iterator>::next, stub_next)]
 pub fn wrong_form_is_undefined_header() {
     set_script(&[]);
